@@ -131,7 +131,7 @@ class Circuit:
                     array = gate.hf0(*tmp0)
                 else:
                     array = gate.hf0(tmp0)
-                gate.set_args(tmp0, array)
+                gate.array = np.asarray(array) #keep the placeholder in gate.args, so that setP can be called again
 
     def append_gate(self, gate:Gate, index:int|tuple[int]):
         r'''append a gate to the circuit. Trainable parameters are re-used.
